@@ -193,6 +193,106 @@ def denote (lay : Layout) (lines : List Bytes) : Option Denotation :=
                hits := shits.map (fun h => ⟨h.col, h.sample, T h.snap⟩),
                holds := sholds.map (fun h => ⟨h.col, h.sample, T h.head, T h.tail - T h.head⟩) }
 
+
+/-! ### the text layer by the book — written independently of the reader's lexer
+
+`Props/C04.lean` proves (`bookLine_classify`, `bookTable_eq_fold`, `bookDoc_parseDoc`) that on every byte string on
+which this lexer gives a line a meaning the reader's classifier (`classify`: `strip`, `split(b" ", 1)`,
+`split(b":")`, slices) gives the same, and that the header table built by "first definition fixes the place, last
+definition gives the value" is the reader's insertion-ordered dict.  Where this lexer is silent and the reader is
+not (a command longer than `#mmmcc`, a channel that is not alphanumeric, `#m:…`) the reader is more liberal than
+the format: dialect facts, listed in `lexer_dialect_facts`. -/
+
+/-- ASCII white space: the space, and HT LF VT FF CR (9 … 13) -/
+def isBlank (c : Char) : Bool := c.toNat = 32 || (decide (9 ≤ c.toNat) && decide (c.toNat ≤ 13))
+
+/-- a line without the white space at its two ends -/
+def trimBlank (s : Bytes) : Bytes := ((s.dropWhile isBlank).reverse.dropWhile isBlank).reverse
+
+def isAlnum (c : Char) : Bool :=
+  isDigit c || (decide ('A' ≤ c) && decide (c ≤ 'Z')) || (decide ('a' ≤ c) && decide (c ≤ 'z'))
+
+/-- One line of a BMS text.  White space at the ends is insignificant.  A line that does not begin with `#` is a
+comment.  `#NAME value`: a header command — the name ends at the first space, the value is everything behind it
+(values may contain spaces).  `#mmmcc:data` (no space; three decimal digits, two alphanumeric channel characters,
+data without a colon): a channel message.  Any other `#…` word that does not start with a digit (`#ENDIF`, an
+unfilled header) is ignored.  Silent (`none`): a lone `#`, and a word starting with a digit that is not of the
+form `#mmmcc:data`. -/
+def bookLine (raw : Bytes) : Option Line :=
+  match trimBlank raw with
+  | '#' :: body =>
+    if body.contains ' ' then
+      some (.header (body.takeWhile (fun c => c != ' ')) ((body.dropWhile (fun c => c != ' ')).drop 1))
+    else
+      match body with
+      | [] => none
+      | c :: _ =>
+        if isDigit c then
+          match body with
+          | m1 :: m2 :: m3 :: c1 :: c2 :: ':' :: data =>
+            if isDigit m2 && isDigit m3 && isAlnum c1 && isAlnum c2 && !(data.contains ':')
+            then some (.note [m1, m2, m3] [c1, c2] data) else none
+          | _ => none
+        else some .skip
+  | _ => some .skip
+
+/-- the last definition of a name -/
+def lastValue {α} (k : Bytes) : List (Bytes × α) → Option α
+  | [] => none
+  | kv :: rest =>
+    match lastValue k rest with
+    | some w => some w
+    | none => if kv.1 = k then some kv.2 else none
+
+/-- a table given by definitions in file order: a name defined more than once keeps the place of its first
+definition and has the value of its last -/
+def bookTable {α} : List (Bytes × α) → Dict α
+  | [] => []
+  | kv :: rest => (kv.1, (lastValue kv.1 rest).getD kv.2) :: (bookTable rest).filter (fun p => p.1 ≠ kv.1)
+
+def Line.headerOf : Line → Option (Bytes × Bytes)
+  | .header k v => some (k, v)
+  | _ => none
+
+def Line.messageOf : Line → Option (Bytes × Bytes × Bytes)
+  | .note m c s => some (m, c, s)
+  | _ => none
+
+/-- a text: every line has a meaning; the header table, and the channel messages in file order (duplicated
+message lines are all kept — their objects add up) -/
+def bookDoc (lines : List Bytes) : Option Doc :=
+  (allSome (lines.map bookLine)).map fun ls => ⟨bookTable (ls.filterMap Line.headerOf), ls.filterMap Line.messageOf⟩
+
+/-- the meaning of a lexed text (the same semantics as `denote`) -/
+def denoteDoc (lay : Layout) (doc : Doc) : Option Denotation :=
+  match readHeader doc.header with
+  | .error _ => none
+  | .ok hdr =>
+    match denoteBody lay doc hdr with
+    | none => none
+    | some (cs, shits, sholds) =>
+      let T := timeAt 0 cs
+      some { header := hdr, tempo := cs, shits := shits, sholds := sholds,
+             hits := shits.map (fun h => ⟨h.col, h.sample, T h.snap⟩),
+             holds := sholds.map (fun h => ⟨h.col, h.sample, T h.head, T h.tail - T h.head⟩) }
+
+/-- **BMS by the book, text to meaning, with the specification's own lexer** -/
+def denoteText (lay : Layout) (lines : List Bytes) : Option Denotation :=
+  match bookDoc lines with
+  | none => none
+  | some doc => denoteDoc lay doc
+
+/-- `read_file`: the file's bytes split into lines at LF, CRLF or a bare CR (what a text-mode line reader does);
+a trailing line end does not start another line -/
+def fileLinesAux : Bytes → Bytes → List Bytes
+  | cur, [] => if cur.isEmpty then [] else [cur.reverse]
+  | cur, '\n' :: t => cur.reverse :: fileLinesAux [] t
+  | cur, '\r' :: '\n' :: t => cur.reverse :: fileLinesAux [] t
+  | cur, '\r' :: t => cur.reverse :: fileLinesAux [] t
+  | cur, c :: t => fileLinesAux (c :: cur) t
+
+def fileLines (b : Bytes) : List Bytes := fileLinesAux [] b
+
 /-! ### syntax of a data line (C05: "every line is syntactically valid") -/
 
 def isB36 (c : Char) : Bool := isDigit c || (decide ('A' ≤ c) && decide (c ≤ 'Z'))
